@@ -384,7 +384,7 @@ def r3(ctx, R):
         R.bad(sp, sp.node, "the edited cells itself is not part of the loop (skip_self=False)", stmt="skip_self")
 
 
-@rule("C03.R4", "C03", "REACH", "every member / base edit schedules re-derivation of all descendants", min_instances=14)
+@rule("C03.R4", "C03", "REACH", "every member / base edit schedules re-derivation of all descendants", min_instances=14, also=("C13",))
 def r4(ctx, R):
     """Member edits loop over _get_subs or call update_subs; base edits schedule
     _update_derived_space for the node and for every node of edge_dfs/edge_bfs; update_subs
